@@ -171,3 +171,42 @@ Definition msearchid (fuel : nat) (m : msg) (vs : vars) (q : key) : res (option 
       do rres <- match rc2 with None => Ok None | Some x => do y <- mleftmost fuel m vs x; Ok (Some y) end;
       Ok (lres, eq2, rres)
   end.
+
+(* ---- Search / RangeGet on the message: the leaf values of the searchID triple ---- *)
+(* getLeaf + getIthLeafBytes of node id *)
+Definition mleaf_value (m : msg) (vs : vars) (id : nat) : res (option (list byte)) :=
+  match get_node m vs (N.of_nat id) with
+  | Val (DnLeaf ith _) =>
+      match ith_leaf_bytes m ith with
+      | Val v => Ok v
+      | Panic => Err (EPanic 11)
+      end
+  | Val (DnInner _ _ _ _ _ _ _) => Err (EPanic 10)
+  | Panic => Err (EPanic 33)
+  end.
+
+Definition mopt_leaf_value (m : msg) (vs : vars) (c : option nat) : res (option (option (list byte))) :=
+  match c with
+  | None => Ok None
+  | Some id => do v <- mleaf_value m vs id; Ok (Some v)
+  end.
+
+Definition msearch (fuel : nat) (m : msg) (vs : vars) (q : key) :=
+  do t <- msearchid fuel m vs q;
+  let '(l, e, r) := t in
+  do lv <- mopt_leaf_value m vs l;
+  do ev <- mopt_leaf_value m vs e;
+  do rv <- mopt_leaf_value m vs r;
+  Ok (lv, ev, rv).
+
+Definition mrangeget (fuel : nat) (m : msg) (vs : vars) (q : key) : res found :=
+  do t <- msearchid fuel m vs q;
+  let '(l, e, _) := t in
+  match e with
+  | Some id => do v <- mleaf_value m vs id; Ok (Found v)
+  | None =>
+      match l with
+      | None => Ok NotFound
+      | Some id => do v <- mleaf_value m vs id; Ok (Found v)
+      end
+  end.
